@@ -190,7 +190,8 @@ def expand_all(reqs):
 
 # ------------------------------------------------------------------------------------------------ descriptors
 def field(ident, rename=None, default=None, skip=False, multiple=False, flatten=False, with_=False, post=None):
-    return {"ident": ident, "rename": rename, "default": default, "skip": skip, "multiple": multiple,
+    # skip="false": the option is written out as `skip = false`, which is the same as not writing it
+    return {"ident": ident, "rename": rename, "default": default, "skip": skip is True, "skip_false": skip == "false", "multiple": multiple,
             "flatten": flatten, "with": with_, "post": post}
 
 
@@ -272,6 +273,8 @@ def declaration(d):
             a.append(f"default = mk_{i}")
         if f["skip"]:
             a.append("skip")
+        elif f.get("skip_false"):
+            a.append("skip = false")
         if f["multiple"]:
             a.append("multiple")
         if f["flatten"]:
@@ -666,6 +669,7 @@ def quick_structs():
         struct_desc("R12", [], allow_unknown=False),
         struct_desc("R13", [f("a", multiple=True), f("rest", flatten=True)], cpost="map"),
         struct_desc("R14", [f("a"), f("b", default="trait")], from_word=True, from_none=True),
+        struct_desc("R15", [f("host", skip="false"), f("port", skip="false", default="trait"), f("c", skip=True)]),
     ]
 
 
@@ -1243,6 +1247,7 @@ def supports_desc(name, struct_words=(), enum_words=(), any_=False):
 
 
 def supports_declaration(d):
+    # a kind's `any` word (`struct_any` / `enum_any`) stands for all four shape words of that kind - it is NOT the bare `any` (a union still fails)
     ws = (["any"] if d["any"] else []) + [f"struct_{w}" for w in d["struct_words"]] + [f"enum_{w}" for w in d["enum_words"]]
     return f"#[darling(attributes(x), supports({', '.join(ws)}))] struct {d['name']} {{ ident: syn::Ident }}"
 
@@ -1270,8 +1275,8 @@ verus! {{
 def supports_template(d, gen_id):
     n = d["name"]
     canon = ["named", "tuple", "newtype", "unit"]     # order in which DataShape lists its words (list equality is only a proof hint)
-    sws = [x for x in canon if x in d["struct_words"]]
-    ews = [x for x in canon if x in d["enum_words"]]
+    sws = [x for x in canon if x in d["struct_words"] or "any" in d["struct_words"]]
+    ews = [x for x in canon if x in d["enum_words"] or "any" in d["enum_words"]]
     sw = "seq![" + ", ".join(f"Shape::{SHAPE_VARIANT[w]}" for w in sws) + "]"
     ew = "seq![" + ", ".join(f"Shape::{SHAPE_VARIANT[w]}" for w in ews) + "]"
     if not d["struct_words"]:
@@ -1292,26 +1297,35 @@ def supports_template(d, gen_id):
     else:
         w(f"        ensures match verdict({sw}, {ew}, *__body) {{ Ok(_) => r is Ok, Err(e) => r == Err::<(), Error>(e) }},")
         w("    //@body")
-        # anchored on the binding each set is given, not on the order of the two declarations
-        w(f"    //@ replace R16: let struct_check = $$ ShapeSet::new(vec![$$]) ==> let struct_check = $1 ShapeSet::new({{ let __v: Vec<Shape> = vec![$2]; proof {{ axiom_vec_yield(__v); assert(__v@ =~= {sw}); }} __v }})")
-        w(f"    //@ replace R16: let enum_check = $$ ShapeSet::new(vec![$$]) ==> let enum_check = $1 ShapeSet::new({{ let __v: Vec<Shape> = vec![$2]; proof {{ axiom_vec_yield(__v); assert(__v@ =~= {ew}); }} __v }})")
-        w(f"    //@ replace R10: match *__body {{ ==> proof {{ lemma_set_of(struct_check, {sw}); lemma_set_of(enum_check, {ew}); lemma_empty_iff({sw}); lemma_empty_iff({ew}); }} match *__body {{")
-        w("    //@ replace R6n: for variant in &data.variants ==> for variant in __it: data.variants.as_slice()")
-        # the scaffold follows the shape of the emitted loop (the postcondition above does not): the accumulator is found by what it is,
-        # not by its name; a loop without one (e.g. `check(variant)?`) gets the invariant of a short-circuit loop
+        # The scaffold follows the shape of the emitted function (the postcondition above does not): the two sets are found by what they
+        # are used for (`X.check(struct_data)` / `X.check(variant)`), the accumulator by what it is; a body that builds no set at all (e.g.
+        # an unconditional `Ok(())`) gets no scaffold and is decided by the postcondition alone.
         try:
             emitted = open(os.path.join(GEN, gen_id + ".rs")).read()
         except OSError:
             emitted = ""
         vb = emitted[emitted.find("fn __validate_body"):]
+        ms = re.search(r"\b(\w+)\s*\.\s*check\(\s*struct_data\s*\)", vb)
+        me = re.search(r"\b(\w+)\s*\.\s*check\(\s*variant\s*\)", vb)
+        sname = ms.group(1) if ms else "struct_check"
+        ename = me.group(1) if me else "enum_check"
+        has_sets = bool(re.search(rf"let\s+{sname}\s*=", vb)) and bool(re.search(rf"let\s+{ename}\s*=", vb))
+        if has_sets:
+            # anchored on the binding each set is given, not on the order of the two declarations
+            w(f"    //@ replace R16: let {sname} = $$ ShapeSet::new(vec![$$]) ==> let {sname} = $1 ShapeSet::new({{ let __v: Vec<Shape> = vec![$2]; proof {{ axiom_vec_yield(__v); assert(__v@ =~= {sw}); }} __v }})")
+            w(f"    //@ replace R16: let {ename} = $$ ShapeSet::new(vec![$$]) ==> let {ename} = $1 ShapeSet::new({{ let __v: Vec<Shape> = vec![$2]; proof {{ axiom_vec_yield(__v); assert(__v@ =~= {ew}); }} __v }})")
+            w(f"    //@ replace R10: match *__body {{ ==> proof {{ lemma_set_of({sname}, {sw}); lemma_set_of({ename}, {ew}); lemma_empty_iff({sw}); lemma_empty_iff({ew}); }} match *__body {{")
+        if has_sets or "for variant in &data.variants" in vb:
+            w("    //@ replace R6n: for variant in &data.variants ==> for variant in __it: data.variants.as_slice()")
         m = re.search(r"let mut (\w+) = crate::darling::Error::accumulator\(\);", vb)
         if m:
             acc = m.group(1)
-            w(f"    //@ loop 0 spec: invariant {acc}.armed(), {acc}.errs() =~= expected_errors(&enum_check, data.variants@.take(__it.index@ as int)),")
-        else:
-            w("    //@ loop 0 spec: invariant expected_errors(&enum_check, data.variants@.take(__it.index@ as int)).len() == 0,")
-        w("    //@ loop 0 head: proof { assert(data.variants@.take(__it.index@ + 1).drop_last() == data.variants@.take(__it.index@ as int)); }")
-        w("    //@ loop 0 after: proof { assert(data.variants@.take(data.variants@.len() as int) == data.variants@); }")
+            w(f"    //@ loop 0 spec: invariant {acc}.armed(), {acc}.errs() =~= expected_errors(&{ename}, data.variants@.take(__it.index@ as int)),")
+        elif "for variant in &data.variants" in vb:
+            w(f"    //@ loop 0 spec: invariant expected_errors(&{ename}, data.variants@.take(__it.index@ as int)).len() == 0,")
+        if "for variant in &data.variants" in vb:
+            w("    //@ loop 0 head: proof { assert(data.variants@.take(__it.index@ + 1).drop_last() == data.variants@.take(__it.index@ as int)); }")
+            w("    //@ loop 0 after: proof { assert(data.variants@.take(data.variants@.len() as int) == data.variants@); }")
         w("    //@end")
     w("}")
     return "\n".join(o)
@@ -1325,6 +1339,9 @@ def quick_supports():
         supports_desc("S3", any_=True),
         supports_desc("S4", ["unit", "named", "tuple", "newtype"], ["tuple"]),
         supports_desc("S5", ["newtype"], ["newtype"]),
+        supports_desc("S6", ["any"], ["any"]),
+        supports_desc("S7", ["any", "named"], ["unit"]),
+        supports_desc("S8", ["tuple"], ["any"]),
     ]
 
 
